@@ -150,7 +150,7 @@ func StartText(c *Case) string {
 	sb.WriteString(startHelpers)
 	sb.WriteString("(func $_start (export \"_start\")\n")
 	for _, t := range "iIfF" {
-		for k := 0; k < 2; k++ {
+		for k := 0; k < 4; k++ {
 			fmt.Fprintf(&sb, "  (local $r%c%d %s)\n", t, k, WT(byte(t)))
 		}
 	}
